@@ -28,7 +28,13 @@ def main():
     os.makedirs(ovdir, exist_ok=True)
     open(os.path.join(ovdir, "statik.go"), "w").write("package statik\n")
     ov = os.path.join(ovdir, "overlay.json")
-    json.dump({"Replace": {os.path.join(wt, "client/docs/statik/statik.go"): os.path.join(ovdir, "statik.go")}}, open(ov, "w"))
+    # some demos run through a symlink out/osmosis -> worktree root (app test helpers look for "/osmosis/" in the cwd)
+    link = os.path.join(wt, "out", "osmosis")
+    if not os.path.islink(link):
+        os.symlink(wt, link)
+    json.dump({"Replace": {os.path.join(wt, "client/docs/statik/statik.go"): os.path.join(ovdir, "statik.go"),
+                           os.path.join(link, "client/docs/statik/statik.go"): os.path.join(ovdir, "statik.go")}}, open(ov, "w"))
+    os.makedirs(os.path.join(wt, "out", "tmp"), exist_ok=True)
     # placement(s): every "<repo-relative>.go" mentioned next to a demo source file name
     places = []
     for m in re.finditer(r"([\w./-]+\.go)", txt):
@@ -47,9 +53,8 @@ def main():
         print("cannot parse demo_path.txt:\n" + txt)
         sys.exit(2)
     cmd = re.sub(r"<json>|<overlay[^>]*>|\$OVERLAY", ov, cmd)
-    cmd = re.sub(r"-overlay\s+\S*<ABS WORKTREE>\S*|-overlay\s+\S*out/overlay\S*\.json", "-overlay " + ov, cmd)
+    cmd = re.sub(r"-overlay\s+\S+", "-overlay " + ov, cmd)
     cmd = cmd.replace("<ABS WORKTREE>", wt)
-    cmd = cmd.replace(wt.rstrip("/") + "/", "")
     if " -overlay" not in cmd and ("x/" in cmd and "x/epochs" not in cmd):
         cmd = cmd.replace("go test", "go test -vet=off -overlay %s" % ov, 1)
     print("places:", places, "\ncmd:", cmd)
